@@ -1,5 +1,6 @@
 import Tyme.Driver.Util
 import Tyme.Driver.P01
+import Tyme.Driver.P07
 import Tyme.Driver.P19
 import Tyme.Driver.P06
 import Tyme.Driver.P12
@@ -15,6 +16,7 @@ def execOpAll (op : String) (a : List Int) : String :=
     <|> (P12.execOp op a)
     <|> (P06.execOp op a)
     <|> (P19.execOp op a)
+    <|> (P07.execOp op a)
     -- DISPATCH-EXEC   <|> (Pxx.execOp op a)
   match r with
   | none => "bad-op"
@@ -28,6 +30,7 @@ def specOpAll (op : String) (a : List Int) : String :=
     <|> (P12.specOp op a)
     <|> (P06.specOp op a)
     <|> (P19.specOp op a)
+    <|> (P07.specOp op a)
     -- DISPATCH-SPEC   <|> (Pxx.specOp op a)
   match r with
   | none => "n/a"
@@ -40,6 +43,7 @@ def runEnumAll (name : String) (args : List String) (out : IO.FS.Stream) : Optio
   <|> (P12.runEnum name args out)
   <|> (P06.runEnum name args out)
   <|> (P19.runEnum name args out)
+  <|> (P07.runEnum name args out)
   -- DISPATCH-ENUM   <|> (Pxx.runEnum name args out)
 
 def lineWith (f : String → List Int → String) (line : String) : String :=
